@@ -87,10 +87,26 @@ def damaged_copy(b):
     return b[:i] + b'7767' + b[i + 4:]
 
 
+def encode_only(fj, tables_root=None):
+    """outcome of encoding a flat JSON text in an interpreter that has done nothing else"""
+    from pybufrkit.encoder import Encoder
+    try:
+        return _h(Encoder(tables_root_dir=tables_root).process(fj).serialized_bytes)
+    except Exception as e:
+        return 'raises ' + type(e).__name__
+
+
 def main(argv):
-    """python -m mon.digest <hexfile> [tables_root]   (one message per fresh interpreter)"""
+    """python -m mon.digest <hexfile> [tables_root]   (one message per fresh interpreter)
+    python -m mon.digest --encode <flat json file> [tables_root]   (encoding alone, in an interpreter of its own)"""
     import logging
     logging.disable(logging.CRITICAL)
+    if argv and argv[0] == '--encode':
+        with open(argv[1]) as f:
+            fj = f.read()
+        root = argv[2] if len(argv) > 2 and argv[2] != '-' else None
+        json.dump(dict(encode=encode_only(fj, root)), sys.stdout)
+        return
     with open(argv[0]) as f:
         b = bytes.fromhex(f.read().strip())
     root = argv[1] if len(argv) > 1 and argv[1] != '-' else None
